@@ -56,8 +56,14 @@ def recv(b, o, depth=0):
     return (l, ())
 
 
-def field_execs(b):
-    """field name -> [Call] for exec calls whose receiver is self.<field>[...]"""
+class Site:
+    """an operand evaluation: a real exec call, or one that happens inside a helper called from block `bb` (k orders
+    several evaluations that the same helper call performs)"""
+    def __init__(self, bb, line, k=0, via=None):
+        self.bb, self.line, self.k, self.via = bb, line, k, via
+
+
+def _own_execs(b):
     out = {}
     for c in b.calls:
         if c.path == EXEC and c.args:
@@ -66,10 +72,33 @@ def field_execs(b):
             r = recv(b, c.args[1])
         else:
             continue
-        if r and r[1]:
-            out.setdefault(r[1][0], []).append(c)
-        else:
-            out.setdefault("<param>", []).append(c)
+        name = r[1][0] if (r and r[1]) else "<param>"
+        out.setdefault(name, []).append(Site(c.bb, c.line))
+    return out
+
+
+def field_execs(b, lib=None):
+    """field name -> [Site] for exec calls whose receiver is self.<field>[...]; evaluations performed by a helper that was
+    extracted from this function (owned by it alone, called with self) are attributed to the helper's call site"""
+    out = _own_execs(b)
+    if lib is None:
+        return out
+    from ..owners import for_crate, base
+    own = for_crate(lib)
+    for c in b.calls:
+        if not c.callee or c.callee == b.id:
+            continue
+        hb = lib.body(c.callee)
+        if hb is None or own.of(c.callee) != frozenset({base(b.id)}) or base(c.callee) == base(b.id):
+            continue
+        inner = _own_execs(hb)
+        if not inner:
+            continue
+        # order of the helper's evaluations: by dominance inside the helper
+        flat = [(f, s) for f, ss in inner.items() for s in ss]
+        flat.sort(key=lambda fs: len(hb.dom[fs[1].bb]))
+        for k, (f, s2) in enumerate(flat):
+            out.setdefault(f, []).append(Site(c.bb, c.line, k + 1, via=c.callee))
     return out
 
 
@@ -98,7 +127,7 @@ def run(ctx):
             if in_cycle(b, c.bb):
                 return False
             after = b.reachable_after(c.bb)
-            if any(o.bb in after for o in sites if o is not c):
+            if any(o.bb in after or (o.bb == c.bb and o.k > c.k) for o in sites if o is not c):
                 return False
         return True
 
@@ -110,7 +139,10 @@ def run(ctx):
             return False
         for c in second:
             after = b.reachable_after(c.bb)
-            if any(o.bb in after for o in first):
+            if any(o.bb in after or (o.bb == c.bb and o.k > c.k) for o in first):
+                return False
+            # evaluated by the same helper call: the first operand must come earlier inside the helper
+            if any(o.bb == c.bb for o in first) and not any(o.bb == c.bb and o.k < c.k for o in first) and not any(o.bb != c.bb for o in first):
                 return False
         return True
 
@@ -118,7 +150,7 @@ def run(ctx):
         b = lib.body(bid)
         if not res.anchor(b is not None, bid):
             continue
-        fe = field_execs(b)
+        fe = field_execs(b, lib)
         okf = True
         for f in fields:
             key = "once:%s|%s" % (bid, f)
@@ -144,12 +176,12 @@ def run(ctx):
     # all kernels / assign run after the right operand
     b = lib.body(P % "bin_op::BinOperation")
     if b is not None:
-        fe = field_execs(b)
+        fe = field_execs(b, lib)
         if fe.get("rhs") and fe.get("lhs"):
             rhs_gates = {c.bb for c in fe["rhs"]}
             lhs_gates = {c.bb for c in fe["lhs"]}
             late = [c for c in b.calls if c.callee.startswith("instruction::") and c.callee.rsplit("::", 1)[-1] in ("exec", "try_exec")
-                    and c.callee not in SHORT and c not in fe["rhs"] and c not in fe["lhs"]]
+                    and c.callee not in SHORT and c.bb not in rhs_gates and c.bb not in lhs_gates]
             free = b.reachable(0, avoid=rhs_gates)
             bad = [c for c in late if c.bb in free]
             if bad:
@@ -186,7 +218,7 @@ def run(ctx):
         b = lib.body(bid)
         if not res.anchor(b is not None, bid):
             continue
-        fe = field_execs(b)
+        fe = field_execs(b, lib)
         cc, ca, cb = (once(b, fe, f, "once:%s|%s" % (bid, f)) for f in (cond, fa, fb))
         if None in (cc, ca, cb):
             continue
@@ -202,7 +234,7 @@ def run(ctx):
         b = lib.body(bid)
         if not res.anchor(b is not None, bid):
             continue
-        fe = field_execs(b)
+        fe = field_execs(b, lib)
         c = once(b, fe, f, "once:%s|%s" % (bid, f))
         ins = [x for x in b.calls if x.callee == "interpreter::Interpreter::<'a>::insert"]
         for cb2 in lib.closures_of(bid):
@@ -219,7 +251,7 @@ def run(ctx):
     bid = P % "slicing::Slicing"
     b = lib.body(bid)
     if res.anchor(b is not None, bid):
-        fe = field_execs(b)
+        fe = field_execs(b, lib)
         lhs = once(b, fe, "lhs", "once:%s|lhs" % bid)
         idx = [c for c in b.calls if c.callee == "instruction::slicing::Slicing::exec_index"]
         names = [(recv(b, c.args[0]) or (0, ("?",)))[1][:1] for c in idx]
@@ -234,7 +266,7 @@ def run(ctx):
     bid = P % "control_flow::r#match::Match"
     b = lib.body(bid)
     if res.anchor(b is not None, bid):
-        fe = field_execs(b)
+        fe = field_execs(b, lib)
         scr = once(b, fe, "expression", "once:%s|expression" % bid)
         cov = [c for c in b.calls if c.callee == "instruction::control_flow::match_arm::MatchArm::covers"]
         arm = [c for c in b.calls if c.callee == "instruction::control_flow::match_arm::MatchArm::exec"]
